@@ -8,6 +8,13 @@ ROOT = os.path.dirname(os.path.dirname(os.path.abspath(__file__)))
 
 # id -> (category, technique, text, note, design_ref)
 CHECKS = {
+    "C10": (
+        "exploration",
+        "(a) differential monitor: patched Template.compile_nodelist/render vs the saved original Django methods on the same generated stock template families; (b) metamorphic monitor: extends/block/include family of a component program vs the hand-flattened program",
+        "(a) 2k (quick) / 100k (thorough) generated stock families (extends chains, includes, blocks with block.super, for/if/with/autoescape/firstof/cycle, custom tags/filters of a plain Library with quoted arguments, ~8% erroneous) x 2 contexts x engine.debug on/off are compiled and rendered with the patched methods and with the originals captured before django.setup(): output or exception text, Context layers and render-context depth must be identical. (b) 2k / 60k E1 programs whose page / component templates are split into base+child(+grandchild)+include families must render exactly like the flattened program in both modes. One listed finding (block state shared between nested extends-based templates) is attributed by a rename-based defect model.",
+        "(a) trusts that swapping the two class attributes restores stock behaviour (asserted: the saved functions are Django's own); (b) equivalence is by construction under Django's documented semantics.",
+        "DESIGN.md §2 C10",
+    ),
     "C03": (
         "exploration",
         "reference-interpreter monitor on binding-site-identifying output (every bound value names its binding site), two page contexts per program (2-run non-interference), caller-Context snapshot monitor; listed findings attributed by exact or token-level defect models",
